@@ -297,7 +297,21 @@ pub fn install_quiet_panic_hook() {
         let loc = info.location().map(|l| format!("{}:{}", l.file(), l.line())).unwrap_or_default();
         let short: String = msg.chars().take(160).collect();
         LAST_PANIC.with(|p| *p.borrow_mut() = Some(format!("{short} @ {loc}")));
+        if let Ok(mut g) = LAST_PANIC_ANY_THREAD.lock() {
+            *g = Some(format!("{short} @ {loc}"));
+        }
     }));
+}
+
+/// The message of the most recent panic on any thread (for panics of the harness itself, which nobody catches).
+pub static LAST_PANIC_ANY_THREAD: std::sync::Mutex<Option<String>> = std::sync::Mutex::new(None);
+
+/// Runs the whole program; a panic that escapes (a defect of the harness, never a verdict) becomes exit 2 with a message.
+pub fn run_main(f: impl FnOnce()) {
+    if std::panic::catch_unwind(std::panic::AssertUnwindSafe(f)).is_err() {
+        let msg = LAST_PANIC_ANY_THREAD.lock().ok().and_then(|g| g.clone()).unwrap_or_else(|| "<panic>".into());
+        machinery_error(format!("the harness itself panicked: {msg}"));
+    }
 }
 
 /// Runs `f`, converting a panic into `Err(message @ file:line)`.
